@@ -224,8 +224,6 @@ Definition C11_error_ok (d : desc) (e : load_err) : bool :=
 Definition C11_accept_ok (d : desc) (P : proc) : bool :=
   negb (syntactic_defect d) && C09_checkb P && C10_checkb d P.
 
-(* guards of C11 (the two listed findings O2/O3 live exactly outside them) *)
+(* guard of C11 (the listed finding O2 lives exactly outside it) *)
 Definition acl_knownb (d : desc) : bool :=
   forallb (fun x => forallb (fun c => mem_ic c (cap_reg d)) (d_mem x)) (d_units d).
-Definition names_nonemptyb (d : desc) : bool :=
-  forallb (fun x => negb (String.eqb (d_name x) EmptyString)) (d_units d).
